@@ -10,12 +10,19 @@ __CPROVER_requires(context->tempData != NULL && (g_pol_evals == 0 || (((Verifica
 __CPROVER_ensures(g_pol_evals == __CPROVER_old(g_pol_evals) + 1 && __CPROVER_return_value == g_last_pol_res)
 __CPROVER_ensures(policyResult->finalResult.resultCode == g_last_pol_code && policyResult->resultCode == g_last_pol_code)
 __CPROVER_ensures(g_last_pol_code == KSI_VER_RES_OK || g_last_pol_code == KSI_VER_RES_NA || g_last_pol_code == KSI_VER_RES_FAIL)
-/* rules may leave scratch objects in tempData */
+/* rules may leave scratch objects in tempData.  (audit builderY) Stated with unconditional __CPROVER_pointer_equals, decided by the arbitrary flags
+ * g_rv_left_*: dfcc havocs a pointer-typed assigns target of a replaced contract with ONE symbol per target shared by all calls on a path, and
+ * the fallback loop runs its first and its step iteration on one path; with the assumed disjunctions below alone every policy of a run left the
+ * SAME scratch objects (no obligation depends on that here - tempData must be empty again before the next policy - so this is hygiene). */
+__CPROVER_ensures(__CPROVER_pointer_equals(((VerificationTempData *)context->tempData)->calendarChain, g_rv_left_cal ? (void *)g_tmp_cal_p : (void *)0))
+__CPROVER_ensures(__CPROVER_pointer_equals(((VerificationTempData *)context->tempData)->publicationsFile, g_rv_left_pub ? (void *)g_tmp_pub_p : (void *)0))
+__CPROVER_ensures(__CPROVER_pointer_equals(((VerificationTempData *)context->tempData)->aggregationOutputHash, g_rv_left_hash ? (void *)g_tmp_hash_p : (void *)0))
 __CPROVER_ensures((((VerificationTempData *)context->tempData)->calendarChain == NULL || ((VerificationTempData *)context->tempData)->calendarChain == g_tmp_cal_p) &&
 		(((VerificationTempData *)context->tempData)->publicationsFile == NULL || ((VerificationTempData *)context->tempData)->publicationsFile == g_tmp_pub_p) &&
 		(((VerificationTempData *)context->tempData)->aggregationOutputHash == NULL || ((VerificationTempData *)context->tempData)->aggregationOutputHash == g_tmp_hash_p))
 __CPROVER_assigns(policyResult->finalResult.resultCode, policyResult->finalResult.errorCode, policyResult->resultCode, g_pol_evals, g_last_pol_res, g_last_pol_code,
-		((VerificationTempData *)context->tempData)->calendarChain, ((VerificationTempData *)context->tempData)->publicationsFile, ((VerificationTempData *)context->tempData)->aggregationOutputHash);
+		((VerificationTempData *)context->tempData)->calendarChain, ((VerificationTempData *)context->tempData)->publicationsFile, ((VerificationTempData *)context->tempData)->aggregationOutputHash,
+		g_rv_left_cal, g_rv_left_pub, g_rv_left_hash);
 
 static int PolicyVerificationResult_addLatestPolicyResult(KSI_PolicyVerificationResult *result)
 __CPROVER_requires(result != NULL)
@@ -39,4 +46,4 @@ __CPROVER_ensures(IMPLIES(__CPROVER_return_value != KSI_OK, *result == __CPROVER
 __CPROVER_ensures(IMPLIES(__CPROVER_return_value != KSI_OK && g_pol_evals >= 1 && !g_fb_env_failed, g_last_pol_res != KSI_OK))
 /* the context never keeps verification scratch data */
 __CPROVER_ensures(context->tempData == NULL)
-__CPROVER_assigns(*result, context->tempData, context->ctx->lastFailedSignature, g_pol_evals, g_last_pol_res, g_last_pol_code, g_fb_env_failed, g_tmp_frees);
+__CPROVER_assigns(*result, context->tempData, context->ctx->lastFailedSignature, g_pol_evals, g_last_pol_res, g_last_pol_code, g_fb_env_failed, g_tmp_frees, g_rv_left_cal, g_rv_left_pub, g_rv_left_hash);
